@@ -861,7 +861,7 @@ pub fn run() -> SimResult {
                 break;
             }
             let hi = draw(pool.len() as u32) as usize;
-            let op = draw(16);
+            let op = draw(18);
             match op {
                 0 | 1 => {
                     tr!("{} read #{}", what, hi);
@@ -1129,6 +1129,86 @@ pub fn run() -> SimResult {
                                     }
                                 }
                                 (g, ms) => return Err(Violation::new("mismatch/pointer_mut", format!("{}: pointer_mut({}) is_some={} but the model says {}", what, gen::path_str(&p), g.is_some(), ms.is_some()))),
+                            }
+                        }
+                        16 | 17 => {
+                            // a read view (as_array / as_object) of this handle is cloned and the CLONE is mutated
+                            // and turned back into a value of its own; the handle itself must not change
+                            let sub = draw(3);
+                            tr!("{} #{} clone of the as_array / as_object view, mutated (op {})", what, hi, sub);
+                            let kind = m.kind();
+                            let out: Option<OwnedLazyValue> = libcall("view.clone() + mutate", || {
+                                if let Some(view) = v.as_array() {
+                                    let mut c: sonic_rs::LazyArray = view.clone();
+                                    match sub {
+                                        0 => c.push(nv),
+                                        1 => {
+                                            c.pop();
+                                        }
+                                        _ => {
+                                            if let Some(first) = c.first_mut() {
+                                                *first = nv;
+                                            }
+                                        }
+                                    }
+                                    Some(OwnedLazyValue::from(c))
+                                } else if let Some(view) = v.as_object() {
+                                    let mut c: sonic_rs::LazyObject = view.clone();
+                                    match sub {
+                                        0 => c.append_pair(FastStr::new("added by the clone"), nv),
+                                        1 => {
+                                            c.pop();
+                                        }
+                                        _ => {
+                                            if let Some(first) = c.first_mut() {
+                                                first.1 = nv;
+                                            }
+                                        }
+                                    }
+                                    Some(OwnedLazyValue::from(c))
+                                } else {
+                                    None
+                                }
+                            })?;
+                            match (out, kind) {
+                                (Some(o), Kind::Arr) => {
+                                    let mut mm = m.clone();
+                                    mm.make_fuzzy();
+                                    mm.expand();
+                                    let OM::Arr(a) = &mut mm else { unreachable!() };
+                                    match sub {
+                                        0 => a.push(nm),
+                                        1 => {
+                                            a.pop();
+                                        }
+                                        _ => {
+                                            if let Some(first) = a.first_mut() {
+                                                *first = nm;
+                                            }
+                                        }
+                                    }
+                                    pool.push(H::Owned { v: o, m: mm });
+                                }
+                                (Some(o), Kind::Obj) => {
+                                    let mut mm = m.clone();
+                                    mm.make_fuzzy();
+                                    mm.expand();
+                                    let OM::Obj(ob) = &mut mm else { unreachable!() };
+                                    match sub {
+                                        0 => ob.push(("added by the clone".to_string(), nm)),
+                                        1 => {
+                                            ob.pop();
+                                        }
+                                        _ => {
+                                            if let Some(first) = ob.first_mut() {
+                                                first.1 = nm;
+                                            }
+                                        }
+                                    }
+                                    pool.push(H::Owned { v: o, m: mm });
+                                }
+                                (None, k) if k != Kind::Arr && k != Kind::Obj => {}
+                                (o, k) => return Err(Violation::new("mismatch/as_array", format!("{}: as_array / as_object is_some={} on a {:?}", what, o.is_some(), k))),
                             }
                         }
                         _ => {
